@@ -414,10 +414,10 @@ example : step { init 200 with pending := [0x81, 0x05, 1, 2] } .decode ⟨.needM
 example : step { init 200 with pending := [0x81, 0x05, 1, 2] } .decode ⟨.needMore, 4, 508⟩ ≠ none := by decide
 
 /-- Without the hypothesis on `max` the property is false: with `maxMessageSize = MaxInt64` the declared length
-2^63-1 passes the check, `readSoFar += payloadLength` wraps, and `Reserve` asks the allocator for more than
-MaxInt64 bytes (Go panics). -/
+2^63-1 passes the check, `readSoFar += payloadLength` wraps to a negative number, `PrepareRead` has nothing to do
+and `src.Data()[:readSoFar]` panics with a negative slice bound. -/
 theorem C07_huge_max_panics :
     err (runInit Go.I64MAX 512 [.feed [0x82, 0x7f, 0x7f, 0xff, 0xff, 0xff, 0xff, 0xff, 0xff, 0xff] 512, .decode 512])
-      = some .allocRange := by decide
+      = some .sliceBounds := by decide
 
 end Sonic.Props.C07
